@@ -95,6 +95,43 @@ func (p *pkg) findFunc(recv, name string) *ast.FuncDecl {
 	return nil
 }
 
+// shapeString renders an expression with every identifier replaced by `_`: what is indexed by what kind of thing,
+// independent of the names chosen (a renamed variable, receiver or field does not change a shape)
+func shapeString(e ast.Expr) string {
+	switch x := e.(type) {
+	case *ast.Ident:
+		return "_"
+	case *ast.StarExpr:
+		return "*" + shapeString(x.X)
+	case *ast.ParenExpr:
+		return "(" + shapeString(x.X) + ")"
+	case *ast.SelectorExpr:
+		return shapeString(x.X) + "._"
+	case *ast.BasicLit:
+		return x.Value
+	case *ast.IndexExpr:
+		return shapeString(x.X) + "[" + shapeString(x.Index) + "]"
+	case *ast.SliceExpr:
+		lo, hi := "", ""
+		if x.Low != nil {
+			lo = shapeString(x.Low)
+		}
+		if x.High != nil {
+			hi = shapeString(x.High)
+		}
+		return shapeString(x.X) + "[" + lo + ":" + hi + "]"
+	case *ast.CallExpr:
+		return shapeString(x.Fun) + "()"
+	case *ast.TypeAssertExpr:
+		return shapeString(x.X) + ".(T)"
+	case *ast.BinaryExpr:
+		return shapeString(x.X) + x.Op.String() + shapeString(x.Y)
+	case *ast.UnaryExpr:
+		return x.Op.String() + shapeString(x.X)
+	}
+	return "?"
+}
+
 func exprString(e ast.Expr) string {
 	switch x := e.(type) {
 	case *ast.Ident:
@@ -501,7 +538,9 @@ type funcFacts struct {
 	sends    int
 	writes   []string // assignments to package-level variables
 	events   []string // ordered channel sends/receives, goroutine starts and Close() calls (only kept when a channel is involved)
+	file     string   // the source file (base name) the function is declared in
 	indexing []string // run-time-checked accesses: x[i], x[a:b], x.(T) without comma-ok (each can panic)
+	shapes   []string // the same accesses as shapes (identifiers replaced by _)
 	recvw    []string // assignments through a pointer receiver (state kept on a handler / client / reader value)
 }
 
@@ -513,7 +552,7 @@ func (p *pkg) funcFacts(globals map[string]bool) []funcFacts {
 			if !ok || fd.Body == nil {
 				continue
 			}
-			ff := funcFacts{id: funcID(p, fd)}
+			ff := funcFacts{id: funcID(p, fd), file: filepath.Base(fn)}
 			locals := map[string]bool{}
 			recvName := ""
 			if fd.Recv != nil && len(fd.Recv.List) == 1 && len(fd.Recv.List[0].Names) == 1 {
@@ -593,12 +632,15 @@ func (p *pkg) funcFacts(globals map[string]bool) []funcFacts {
 				case *ast.IndexExpr:
 					if !lhsIndex[x] {
 						ff.indexing = append(ff.indexing, exprString(x))
+						ff.shapes = append(ff.shapes, shapeString(x))
 					}
 				case *ast.SliceExpr:
 					ff.indexing = append(ff.indexing, exprString(x))
+					ff.shapes = append(ff.shapes, shapeString(x))
 				case *ast.TypeAssertExpr:
 					if x.Type != nil && !safeAssert[x] {
 						ff.indexing = append(ff.indexing, exprString(x))
+						ff.shapes = append(ff.shapes, shapeString(x))
 					}
 				case *ast.ValueSpec:
 					if len(x.Names) == 2 && len(x.Values) == 1 {
@@ -1060,7 +1102,71 @@ func main() {
 			rts = append(rts, leanStr(k))
 		}
 		sort.Strings(rts)
-		fmt.Fprintf(&f, "/-- the receiver types whose methods assign through the receiver -/\ndef %sReceiverWriteTypes : List String := [%s]\n\n", pk.name, strings.Join(rts, ", "))
+		fmt.Fprintf(&f, "/-- the receiver types whose methods assign through the receiver -/\ndef %sReceiverWriteTypes : List String := [%s]\n", pk.name, strings.Join(rts, ", "))
+		// per-FILE aggregates in a form that renaming an identifier or moving code between the functions of a file does
+		// not change: these are what the pinned obligations compare
+		files := map[string]bool{}
+		shapesBy, statusBy, panicsBy := map[string][]string{}, map[string][]int{}, map[string]int{}
+		for _, ff := range facts {
+			files[ff.file] = true
+			shapesBy[ff.file] = append(shapesBy[ff.file], ff.shapes...)
+			statusBy[ff.file] = append(statusBy[ff.file], ff.statuses...)
+			panicsBy[ff.file] += ff.panics
+		}
+		var fl []string
+		for k := range files {
+			fl = append(fl, k)
+		}
+		sort.Strings(fl)
+		fmt.Fprintf(&f, "/-- run-time-checked accesses per source file, as shapes (identifiers replaced by _), sorted -/\ndef %sIndexShapesByFile : List (String × List String) := [", pk.name)
+		first = true
+		for _, k := range fl {
+			if len(shapesBy[k]) == 0 {
+				continue
+			}
+			if !first {
+				f.WriteString(",")
+			}
+			first = false
+			sort.Strings(shapesBy[k])
+			var ws []string
+			for _, w := range shapesBy[k] {
+				ws = append(ws, leanStr(w))
+			}
+			fmt.Fprintf(&f, "\n  (%s, [%s])", leanStr(k), strings.Join(ws, ", "))
+		}
+		f.WriteString("]\n")
+		fmt.Fprintf(&f, "/-- status-code literals per source file, sorted -/\ndef %sStatusByFile : List (String × List Nat) := [", pk.name)
+		first = true
+		for _, k := range fl {
+			if len(statusBy[k]) == 0 {
+				continue
+			}
+			if !first {
+				f.WriteString(", ")
+			}
+			first = false
+			sort.Ints(statusBy[k])
+			var ws []string
+			for _, w := range statusBy[k] {
+				ws = append(ws, fmt.Sprint(w))
+			}
+			fmt.Fprintf(&f, "(%s, [%s])", leanStr(k), strings.Join(ws, ", "))
+		}
+		f.WriteString("]\n")
+		fmt.Fprintf(&f, "/-- explicit panic() calls per source file -/\ndef %sPanicsByFile : List (String × Nat) := [", pk.name)
+		first = true
+		for _, k := range fl {
+			if panicsBy[k] == 0 {
+				continue
+			}
+			if !first {
+				f.WriteString(", ")
+			}
+			first = false
+			fmt.Fprintf(&f, "(%s, %d)", leanStr(k), panicsBy[k])
+		}
+		f.WriteString("]\n\n")
 	}
 	f.WriteString("end GoWebdav.Generated\n")
 	writeIfChanged(filepath.Join(outdir, "Facts.lean"), f.String())
